@@ -11,5 +11,6 @@ CONSTANTS NB = 2
  BugBatchAny = FALSE
  BugAddAfterInsert = FALSE
  BugStaleSubIndex = TRUE
+ BugBatchAbort = FALSE
 INVARIANTS TxReachesPool
 CHECK_DEADLOCK FALSE
